@@ -107,7 +107,7 @@ def _is_float(c):
 
 
 def floors(tier):
-    return [('saturate', 'int', 'huge'), ('saturate', 'float', 'huge'), ('saturate', 'int', 'moderate'), ('saturate', 'float', 'moderate'), ('saturate-raw', 'huge'), ('saturate-raw', 'moderate'), ('element-of-wide-array',)]
+    return [('saturate', 'int', 'huge'), ('saturate', 'float', 'huge'), ('saturate', 'int', 'moderate'), ('saturate', 'float', 'moderate'), ('saturate-raw', 'huge'), ('saturate-raw', 'moderate'), ('element-of-wide-array',), ('partly-inferred-sizes',)]
 
 
 # ------------------------------------------------------------------------------------------ workload
@@ -291,6 +291,14 @@ def run_case(case, ctx):
                         'reduce', 'reduce', 'equal', 'copy', 'fxpx'])
         if c == 'new':
             keep(new_obj())
+            if rng.random() < 0.3:
+                # sizes partly given, partly inferred, also with the given word above / the configured maximum below what the value needs
+                v_ = rng.choice([3.5, -0.375, 1000.25, 0.0, 12345.0, 2.0 ** -9])
+                keep(_try(lambda: Fxp(v_, n_word=rng.choice([72, 65, 100, 24, 12]))))
+                keep(_try(lambda: Fxp(v_, n_word=rng.choice([24, 40]), n_word_max=rng.choice([16, 32]))))
+                keep(_try(lambda: Fxp(v_, n_frac=rng.choice([0, 4, 30]), n_word_max=rng.choice([16, 32, 64]))))
+                keep(_try(lambda: Fxp(None, n_word=rng.choice([72, 8]))))
+                ctx.floor_hit(('partly-inferred-sizes',))
         elif c == 'write':
             vals = G.hostile_scaled_values(rng, x.signed, max(1, min(x.n_word, 52)), x.n_frac, n=4)
             vals = [float(v) for v in vals if G.can_carry(v, 'pyfloat')] or [0.0]
